@@ -23,21 +23,26 @@ def concretise(sym, n):
 
 def render(n, c):
     d = c["dis"]
-    tattr = mattr = ""
+    tattr = mattr = m1attr = iattr = ""
     if d["k"] == "disable_T":
         tattr = "    #[diplomat::attr(%s, disable)]\n" % d["b"]
     elif d["k"] == "rename_T":
         tattr = '    #[diplomat::attr(%s, rename = "Ren%d")]\n' % (d["b"], n)
     elif d["k"] == "disable_m2":
         mattr = "        #[diplomat::attr(%s, disable)]\n" % d["b"]
+    elif d["k"] == "disable_m1":
+        m1attr = "        #[diplomat::attr(%s, disable)]\n" % d["b"]
+    elif d["k"] == "disable_i":
+        iattr = "    #[diplomat::attr(%s, disable)]\n" % d["b"]
     ind = lambda s, k: "".join(" " * k + l + "\n" for l in s.splitlines())
     return ("#[diplomat::bridge]\n" + pat_attr(c["pm"], n) + "pub mod p%d {\n" % n +
             # the opaque type is a struct or (odd n) an enum: the two are parsed by different constructors
             ind(pat_attr(c["pt"], n), 4) + tattr + ("    #[diplomat::opaque]\n    pub struct T%d(pub u8);\n" % n if n % 2 == 0 else
                                                    "    #[diplomat::opaque]\n    pub enum T%d {\n        A,\n        B,\n    }\n" % n) +
-            ind(pat_attr(c["pi"], n), 4) + "    impl T%d {\n" % n +
-            ind(pat_attr(c["pme"], n), 8) + "        pub fn m1(&self) -> u8 { 1 }\n" + mattr +
+            ind(pat_attr(c["pi"], n), 4) + iattr + "    impl T%d {\n" % n +
+            ind(pat_attr(c["pme"], n), 8) + m1attr + "        pub fn m1(&self) -> u8 { 1 }\n" + mattr +
             "        pub fn m2(&self, x: u8) -> u8 { x }\n    }\n"
+            "    impl T%d {\n        pub fn m3(&self) -> u8 { 3 }\n    }\n" % n +
             "    #[diplomat::opaque]\n    pub struct U%d(pub u8);\n    impl U%d {\n        pub fn u1(&self) -> u8 { self.0 }\n    }\n}\n" % (n, n))
 
 
@@ -93,7 +98,7 @@ def check_batch(rep, tag, batch, wd):
 
 def run(rep, tier):
     wd = rep.wd
-    rep.rule = ("programs = all 1440 placements of abi_rename patterns (none / fixed / prefix{0} / {0}suffix) on module, type, impl block "
+    rep.rule = ("programs = all placements (see covered) of abi_rename patterns (none / fixed / prefix{0} / {0}suffix) on module, type, impl block "
                 "and method combined with a backend-specific disable/rename; expected symbol per item from Naming.tla; compared three "
                 "ways: spec = nm of the crate compiled with the real macro = symbols referenced by each backend's generated code; "
                 "quick replays a seeded subset, thorough all; non-trivial = programs with at least one pattern")
